@@ -394,8 +394,14 @@ def poly_cases(draw, tier, shape=None):
         gen.shapes(d_min=2, d_max=6 if big else 5, n_min=1, n_max=6 if big else 5, size_max=4096 if big else 1024))
     d = len(n)
     num = st.one_of(st.integers(-3, 3), st.integers(-3, 3).map(float), gen.reals(-3, 3))
-    kind = draw(st.sampled_from(["default", "scalar", "list", "array", "int_scalar", "int_list", "int_array"]))
+    kind = draw(st.sampled_from(["default", "scalar", "list", "array", "int_scalar", "int_list", "int_array", "narrow_array"]))
     case = {"n": n, "n_arr": draw(st.booleans()), "shift_kind": kind}
+    if kind == "narrow_array":
+        # a shift array of a narrower float / integer dtype holding values it represents exactly (multiples of 1/4 up to 300)
+        case["shift"] = [draw(st.integers(-1200, 1200)) / 4.0 for _ in range(d)]
+        case["shift_dtype"] = draw(st.sampled_from(["float32", "float16", "int32", "int16"]))
+        if case["shift_dtype"].startswith("int"):
+            case["shift"] = [float(int(v)) for v in case["shift"]]
     # integer shifts (Python int, list of ints, integer ndarray) incl. large ones: (index + shift)**power then exceeds 2**63
     bigint = st.one_of(st.integers(-3, 3), st.integers(1, 3000), st.integers(-3000, -1))
     if kind == "scalar":
@@ -433,6 +439,11 @@ def run_poly(case, ctx, mark=True):
     elif kind == "int_array":
         kw["shift"] = np.array(case["shift"], dtype=np.int64)
         shift = [float(s) for s in case["shift"]]
+    elif kind == "narrow_array":
+        kw["shift"] = np.array(case["shift"], dtype=case["shift_dtype"])
+        shift = [float(v) for v in kw["shift"]]
+        if not np.array_equal(np.asarray(shift), np.asarray(case["shift"])):
+            raise RuntimeError("harness: shift not exactly representable in " + case["shift_dtype"])
     else:
         kw["shift"] = np.array(case["shift"], dtype=float) if kind == "array" else list(case["shift"])
         shift = [float(s) for s in case["shift"]]
